@@ -35,7 +35,11 @@ func aliasObs(rs []aliasRes) string {
 func suiteAlias(r *Rng, n int, thorough bool, o *Out) {
 	kinds := []int{jsonapi.AttrTypeBytes, jsonapi.AttrTypeBytes, jsonapi.AttrTypeString, jsonapi.AttrTypeInt, jsonapi.AttrTypeTime}
 	for c := 0; c < n; c++ {
-		typ := genTyp(r, genTypeOpts{name: "t", maxAttrs: 4, maxRels: 3, kinds: kinds})
+		ks := kinds
+		if r.chance(1, 3) {
+			ks = nil // every kind: a copy has the source's value whatever the attribute's Go type
+		}
+		typ := genTyp(r, genTypeOpts{name: "t", maxAttrs: 4, maxRels: 3, kinds: ks})
 		wrapped := r.bool()
 		var res jsonapi.Resource
 		if wrapped {
